@@ -712,11 +712,17 @@ func (e *Env) RResolvePath() {
 	// did not fail, and the answer is not the (vendor-stripped) local path unless local paths are
 	// wanted. Errors are returned exactly when the resolver fails.
 	const ask = `f.Resolver.ResolveIdent(f.file, parent, parentField, id)`
+	const pre = `f.Resolver != nil && (force || avoid[parentName+"."+parentField] || parentFieldType == "Expr")`
 	e.checkReturns("R-RESOLVE", c, fd, "resolvePath", []wantReturn{{
-		"the vendor-stripped resolver answer, unless a declaring position (not forced), a resolver error, or the local path",
-		`stripVendor(` + ask + `)`,
-		`f.Resolver != nil && (force || !avoid[parentName+"."+parentField]) && (force || parentFieldType == "Expr") && res1(` + ask + `) == nil && (f.ResolveLocalPath || stripVendor(` + ask + `) != stripVendor(f.Path))`, "", "",
-	}}, `f.Resolver != nil && (force || !avoid[parentName+"."+parentField]) && (force || parentFieldType == "Expr") && res1(`+ask+`) != nil`)
+		what:   "the vendor-stripped resolver answer, unless a declaring position (not forced), a resolver error, or the local path",
+		result: `stripVendor(` + ask + `)`,
+		cond:   `(force || !avoid[parentName+"."+parentField]) && res1(` + ask + `) == nil && (f.ResolveLocalPath || stripVendor(` + ask + `) != stripVendor(f.Path))`,
+		assume: pre, // outside it the function panics (missing resolver, unknown role): an assertion, not a result
+	}, {
+		what: "a resolver failure is returned", result: `""`, err: "!nil",
+		cond:   `(force || !avoid[parentName+"."+parentField]) && res1(` + ask + `) != nil`,
+		assume: pre,
+	}}, "")
 	e.stripVendorAnchored()
 }
 
@@ -871,19 +877,19 @@ func (e *Env) resolveIdentReturns() {
 	}
 	const selX = `parent.(*SelectorExpr).X.(*Ident)`
 	check(load.PkgGotypes, "gotypes", []wantReturn{
-		{"a selector whose X is a package name resolves to the imported package's path",
-			`r.Uses[` + selX + `].(*types.PkgName).Imported().Path()`,
-			`r.Uses != nil && ok(parent.(*SelectorExpr)) && parentField == "Sel" && ok(` + selX + `) && ok(r.Uses[` + selX + `]) && ok(r.Uses[` + selX + `].(*types.PkgName))`, "", ""},
-		{"any other used identifier resolves to its declaring package, except struct fields and universe objects",
-			`r.Uses[id].Pkg().Path()`,
-			`r.Uses != nil && !(ok(parent.(*SelectorExpr)) && parentField == "Sel") && ok(r.Uses[id]) && !(ok(r.Uses[id].(*types.Var)) && r.Uses[id].(*types.Var).IsField()) && r.Uses[id].Pkg() != nil`, "", ""},
+		{what: "a selector whose X is a package name resolves to the imported package's path",
+			result: `r.Uses[` + selX + `].(*types.PkgName).Imported().Path()`,
+			cond:   `r.Uses != nil && ok(parent.(*SelectorExpr)) && parentField == "Sel" && ok(` + selX + `) && ok(r.Uses[` + selX + `]) && ok(r.Uses[` + selX + `].(*types.PkgName))`},
+		{what: "any other used identifier resolves to its declaring package, except struct fields and universe objects",
+			result: `r.Uses[id].Pkg().Path()`,
+			cond:   `r.Uses != nil && !(ok(parent.(*SelectorExpr)) && parentField == "Sel") && ok(r.Uses[id]) && !(ok(r.Uses[id].(*types.Var)) && r.Uses[id].(*types.Var).IsField()) && r.Uses[id].Pkg() != nil`},
 	}, `r.Uses == nil`)
 	check(load.PkgGoast, "goast", []wantReturn{
-		{"the Sel of a selector whose X is an undeclared identifier resolves through the file's import table",
-			`r.imports(file)[` + selX + `.Name]`,
-			`res1(r.imports(file)) == nil && ok(parent.(*SelectorExpr)) && parentField == "Sel" && ok(` + selX + `) && ` + selX + `.Obj == nil && ok(r.imports(file)[` + selX + `.Name])`, "",
+		{what: "the Sel of a selector whose X is an undeclared identifier resolves through the file's import table",
+			result: `r.imports(file)[` + selX + `.Name]`,
+			cond:   `res1(r.imports(file)) == nil && ok(parent.(*SelectorExpr)) && parentField == "Sel" && ok(` + selX + `) && ` + selX + `.Obj == nil && ok(r.imports(file)[` + selX + `.Name])`,
 			// a missing name reads as "", which is the default answer
-			`res1(r.imports(file)) == nil && ok(parent.(*SelectorExpr)) && parentField == "Sel" && ok(` + selX + `) && ` + selX + `.Obj == nil`},
+			alt: `res1(r.imports(file)) == nil && ok(parent.(*SelectorExpr)) && parentField == "Sel" && ok(` + selX + `) && ` + selX + `.Obj == nil`},
 	}, `res1(r.imports(file)) != nil`)
 }
 
@@ -894,6 +900,9 @@ type wantReturn struct {
 	// alt: a second condition under which returning the result is the same function (e.g. without
 	// the presence test of a map read whose zero value is the default answer)
 	alt string
+	// assume: a precondition (the complement is a panic/assert region whose removal or
+	// tightening does not change any result): conditions are compared under it
+	assume string
 }
 
 // checkReturns: fd, as a function of its inputs, returns either (zero, nil) or one of the
@@ -967,13 +976,19 @@ func (e *Env) checkReturnsZ(rule string, c *schema.Ctx, fd *ast.FuncDecl, label,
 			e.Run.Violation(rule, label+": "+w.what, e.Prog.Pos(fd.Pos()), "no return of "+pair)
 			continue
 		}
-		eq, dec := equivalentGuards(got, w.cond)
+		under := func(x string) string {
+			if w.assume == "" {
+				return x
+			}
+			return "(" + x + ") && (" + w.assume + ")"
+		}
+		eq, dec := equivalentGuards(under(got), under(w.cond))
 		if !dec {
 			e.Run.Undecided(rule, label+": "+w.what, e.Prog.Pos(fd.Pos()), "condition not propositional: "+got)
 			continue
 		}
 		if !eq && w.alt != "" {
-			eq, _ = equivalentGuards(got, w.alt)
+			eq, _ = equivalentGuards(under(got), under(w.alt))
 		}
 		e.Run.Check(rule, label+": "+w.what, e.Prog.Pos(fd.Pos()), eq,
 			pair+" is returned under `"+got+"`; specified: `"+w.cond+"`")
